@@ -65,11 +65,25 @@ func (u *Unit) call(st *State, c *ast.CallExpr) []Val {
 			rv := u.eval(st, recvExpr)
 			// walk embedded path to the receiver
 			idx := sel.Index()
-			if len(idx) > 1 {
-				rv = u.readPath(st, rv, idx[:len(idx)-1], c.Pos())
-			}
 			fsig := fo.Type().(*types.Signature)
-			rv = u.adjustRecv(st, rv, fsig.Recv().Type(), recvExpr, c.Pos())
+			embeddedViaPtr := false
+			if len(idx) > 1 {
+				inner := u.readPath(st, rv, idx[:len(idx)-1], c.Pos())
+				_, wantPtr := isPointer(fsig.Recv().Type())
+				_, basePtr := isPointer(rv.Ty)
+				_, innerPtr := isPointer(inner.Ty)
+				if wantPtr && basePtr && !innerPtr && !isInterface(inner.Ty) {
+					// method of an embedded struct value reached through a pointer: the receiver
+					// &x.embedded is identified with x (no temporary copy of the embedded value)
+					embeddedViaPtr = true
+					rv = Val{T: rv.T, Ty: types.NewPointer(inner.Ty), So: "Int"}
+				} else {
+					rv = inner
+				}
+			}
+			if !embeddedViaPtr {
+				rv = u.adjustRecv(st, rv, fsig.Recv().Type(), recvExpr, c.Pos())
+			}
 			recv = &rv
 		}
 		args := u.evalArgs(st, c, sigT)
